@@ -105,7 +105,7 @@ def _canon(v, depth=0):
         return {repr(k): _canon(x, depth + 1) for k, x in sorted(v.items(), key=lambda kv: repr(kv[0]))}
     cn = type(v).__name__
     if cn == "StreamCollection":
-        return ["StreamCollection", sorted(v._streams.keys())]
+        return ["StreamCollection", repr(v), len(v)]
     if cn in ("Configuration",):
         return [cn, _canon({k: x for k, x in vars(v).items()}, depth + 1)]
     if hasattr(v, "__dict__") and not isinstance(v, (types.ModuleType, type, types.FunctionType)) and type(v).__module__.startswith("OpenPinch"):
